@@ -184,6 +184,19 @@ pub fn mutations(name: &str, b: &[u8], level: u8) -> Vec<(String, Vec<u8>)> {
             }
         }
     }
+    // body truncated to k bytes with the Remaining Length rewritten (a complete, shorter frame)
+    if n >= 2 && b[1] < 0x80 && n == 2 + b[1] as usize {
+        for k in 0..(n - 2) {
+            let mut m = vec![b[0], k as u8];
+            m.extend_from_slice(&b[2..2 + k]);
+            out.push((format!("{name} ~body[..{k}]"), m));
+        }
+        // body extended by one byte
+        let mut m = vec![b[0], b[1] + 1];
+        m.extend_from_slice(&b[2..]);
+        m.push(0);
+        out.push((format!("{name} ~body+1"), m));
+    }
     // non-minimal re-encoding of the Remaining Length (when it is a single byte)
     if n >= 2 && b[1] < 0x80 {
         let mut m = vec![b[0], b[1] | 0x80, 0x00];
@@ -224,6 +237,8 @@ pub fn stimuli(ver: Ver, w: usize, level: u8) -> Vec<(String, Vec<u8>)> {
     for (n, ap) in &sd {
         let b = rc::encode(ap, w);
         if level == 0 && b.len() > 12 {
+            // long seeds: only the length-consistent body truncations in the quick tier
+            out.extend(mutations(n, &b, 0).into_iter().filter(|m| m.0.contains("~body")));
             continue;
         }
         out.extend(mutations(n, &b, level));
